@@ -339,9 +339,19 @@ class G2:
         return {"e": env["e"], "objs": env["objs"], "nums": env["nums"] + [v], "ints": env.get("ints", [])}
 
     def column(self, env, d):
-        k = qgen.weighted_choice(self.r, [("num", 8), ("seq", 8), ("seq2", 4), ("seq3", 1)])
+        k = qgen.weighted_choice(self.r, [("num", 8), ("seq", 8), ("seq2", 4), ("seq3", 1), ("bool", 1), ("boolseq", 1)])
         if k == "num":
             return self.num(env, d)
+        if k == "bool":
+            return self.boolean(env, d)
+        if k == "boolseq":
+            s, et = self.seq_obj(env, max(0, d - 1))
+            v = self.var("sub" if ".subs()" in s else "o")
+            was = self.uncond
+            self.uncond = False
+            c = self.boolean(self.push_obj(env, v, et), max(0, d - 1))
+            self.uncond = was
+            return f"{s}.Select(lambda {v}: {c})"
         if k == "seq":
             return self.seq_num(env, d)
         if k == "seq3":
@@ -431,12 +441,22 @@ class G2:
             self.uncond = False
             v = self.var("o")
             oenv = {"e": False, "objs": [(v, et)], "nums": []}
-            n = r.choice([1, 2])
+            if r.random() < 0.3:
+                # a filter between the two steps, on the same objects the columns are computed from
+                steps.append(["Where", f"lambda {v}: {self.num(oenv, max(0, d - 2))} {r.choice(['>', '<', '>=', '!='])} {r.choice(FLOATS)}"])
+                v2 = self.var("o")
+                oenv = {"e": False, "objs": [(v2, et)], "nums": []}
+                v = v2
+            n = r.choice([1, 2, 3])
             cs = [self.num(oenv, d - 1) for _ in range(n)]
+            if n > 1 and r.random() < 0.3:
+                cs[-1] = cs[0] if r.random() < 0.5 else f"({cs[0]} * 2.0)"   # the same sub-expression in two columns
             steps.append(["Select", f"lambda {v}: {cs[0]}" if n == 1 else f"lambda {v}: ({', '.join(cs)})"])
         else:
             n = 1 if form == "single" else r.choice([2, 3])
             cols = [self.column(env, d) for _ in range(n)]
+            if n > 1 and r.random() < 0.2:
+                cols[-1] = cols[0]   # the same expression as two columns
             if form == "single":
                 steps.append(["Select", f"lambda e: {cols[0]}"])
             elif form == "tuple":
